@@ -1266,3 +1266,45 @@ func TestVerifC18(t *testing.T) {
 		groups: vEnvInt("VERIF_C18_GROUPS", 10), faultPct: vEnvInt("VERIF_C18_FAULTPCT", 25), assetWeight: vEnvInt("VERIF_C18_ASSETS", 8),
 		file: "cases_c18.txt", salt: 0xC18})
 }
+
+// ---------------------------------------------------------------- replay of C18_expire_nonparticipating_refuted
+// (not part of the check run; go test -run TestVerifC18ProbeExpireNonPart -v)
+// a NotParticipating account that kept a vote key (possible before the keyreg coherency
+// check) is touched by a payment while rewards accrue: what does GenerateBlock do?
+func TestVerifC18ProbeExpireNonPart(t *testing.T) {
+	r := vNewRand(7)
+	st := map[string]int{}
+	u := vc18NewUniverse(t, r, st)
+	l := u.l
+	d := l.accts[u.addrs[4]]
+	d.VoteID[0] = 5
+	d.VoteLastValid = 1
+	l.accts[u.addrs[4]] = d
+	l.hdrs[0].RewardsRate = l.totals.RewardUnits() * 50
+	for b := 0; b < 3; b++ {
+		prev := l.hdrs[l.latest()]
+		hdr := bookkeeping.MakeBlock(prev).BlockHeader
+		ev, err := StartEvaluator(l, hdr, EvaluatorOptions{Validate: true, Generate: true})
+		if err != nil {
+			t.Fatal(err)
+		}
+		var tx transactions.Transaction
+		tx.Type = protocol.PaymentTx
+		tx.Sender, tx.Receiver = u.addrs[2], u.addrs[4]
+		tx.Fee.Raw = 1000
+		tx.FirstValid, tx.LastValid = hdr.Round, hdr.Round+5
+		tx.GenesisHash = l.gh
+		tx.Amount.Raw = 0
+		if b == 2 {
+			err = ev.TransactionGroup(tx.Sign(u.keys[2]).WithAD())
+			t.Logf("round %d: payment to the account: %v", hdr.Round, err)
+		}
+		ub, err := ev.GenerateBlock(nil)
+		t.Logf("round %d level %d: GenerateBlock err = %v", hdr.Round, ev.state.rewardsLevel(), err)
+		if err != nil {
+			return
+		}
+		t.Logf("  expired list: %v", ub.UnfinishedBlock().ExpiredParticipationAccounts)
+		l.add(ub.UnfinishedBlock().WithProposer([32]byte{}, basics.Address{}, false), ub.UnfinishedDeltas())
+	}
+}
